@@ -671,6 +671,9 @@ class PooledJSONRPCServer(socketserver.ThreadingMixIn, SimpleJSONRPCServer):
         # Store the thread pool
         self.__request_pool = thread_pool
 
+        # Flag set while serve_forever() is running
+        self.__serving = False
+
         # Prepare the server
         SimpleJSONRPCServer.__init__(
             self,
@@ -691,11 +694,25 @@ class PooledJSONRPCServer(socketserver.ThreadingMixIn, SimpleJSONRPCServer):
             self.process_request_thread, request, client_address
         )
 
+    def serve_forever(self, poll_interval=0.5):
+        """
+        Handles requests until shutdown() or server_close() is called
+        """
+        self.__serving = True
+        try:
+            SimpleJSONRPCServer.serve_forever(self, poll_interval)
+        finally:
+            self.__serving = False
+
     def server_close(self):
         """
         Clean up the server
         """
-        SimpleJSONRPCServer.shutdown(self)
+        if self.__serving:
+            # shutdown() waits for serve_forever() to exit: it would block
+            # forever if the server has never been serving
+            SimpleJSONRPCServer.shutdown(self)
+
         SimpleJSONRPCServer.server_close(self)
         self.__request_pool.stop()
 
